@@ -231,6 +231,12 @@ def main():
                 log.append('known finding %s no longer reproduces on this tree; its region is checked again' % kf['id'])
         # ---- symbolic exploration
         shapes = h.shapes(tier)
+        if tier == 'thorough':
+            # the deep tier is an anytime exploration: the shapes of the quick tier first, then the deeper ones, until the
+            # time budget is used up; what was not reached is reported in the evidence (coverage.budget), the exit status
+            # speaks for everything explored
+            qs = h.shapes('quick')
+            shapes = qs + [s_ for s_ in shapes if s_ not in qs]
         opts = {'mir': mir, 'repo': build.REPO, 'tier': tier, 'known_active': active, 'seed': seed,
                 'stop_on_violation': True, 'first_only': True}
         opts.update(getattr(h, 'OPTS', {}).get(tier, {}))
@@ -315,6 +321,11 @@ def main():
         for l in kf_lines:
             print(l)
         incon = list(tot['unsupported'])
+        budget_notes = []
+        if tier == 'thorough':
+            budget_notes = [u for u in incon if u.startswith(('time budget exhausted', 'path budget'))]
+            incon = [u for u in incon if u not in budget_notes]
+        shapes_done = sum(1 for r in results if not any(u.startswith(('time budget exhausted', 'path budget')) for u in r['unsupported']))
         if premise is not None:
             incon += premise['incon']
             for v in premise['violations']:
@@ -353,7 +364,7 @@ def main():
             'rule': 'one evaluation = one feasible symbolic path (distinct path condition = distinct equivalence class of '
                     'inputs) through the MIR of the functions listed; every path is non-trivial in that it reaches all '
                     'property assertions of the harness',
-            'exhaustive': status == 0 and not incon,
+            'exhaustive': status == 0 and not incon and not budget_notes and shapes_done == len(shapes),
             'engine': 'MIRSE (path-wise symbolic execution of rustc MIR, z3 %s)' % __import__('z3').get_version_string(),
             'functions_encoded': dict(sorted(tot['encoded'].items(), key=lambda kv: -kv[1])[:60]),
             'std_models_used': tot['models'], 'shapes': tot['shapes'], 'feasible_paths': tot['ok_paths'],
@@ -366,6 +377,11 @@ def main():
             'shapes_without_completed_path': {'count': len(vacuous), 'examples': vacuous[:3],
                                               'note': 'every path of these shapes violates a harness precondition (assume)'},
             'non_reproducing_counterexamples': len(not_reproduced), 'log': log,
+            'budget': {'seconds': budget, 'shapes_total': len(shapes), 'shapes_completed': shapes_done,
+                       'exhausted': bool(budget_notes) or shapes_done < len(shapes),
+                       'note': 'thorough tier: shapes of the quick tier first, then deeper ones until the budget is used up; shapes '
+                               'not completed are outside what this run explored' if tier == 'thorough' else
+                               'quick tier: an exhausted budget makes the run inconclusive'},
         }
         if premise is not None:
             cov['premises'] = premise['coverage']
